@@ -17,6 +17,8 @@ Layer B: channels
                    every case): body entered / stopping status vs the Lean guard model;
   * csrf_seq     – seeded issue/use/reuse/cross-service/cross-cookie/tamper/prune sequences on the
                    real CsrfProtection vs the Lean state machine.
+  * lifecycle    – login / refresh / API+HTML logout / account deletion / restart / clock-jump scenarios over
+                   HTTP under a fully controlled clock vs the Lean model DashLive.Life;
 Layer C: the property text evaluated on the same cases, on the database before/after: a caller whose held
   accounts (session, token) are not documented for the operation never changes the SHA-256 of any table
   (Token table, User.last_login excluded) nor the blob listing; on `self` rows only the held account's row;
@@ -56,7 +58,12 @@ MANIFEST_ENTRY = {
         "prune_only_at_server_start / no_handler_prunes over the generated list of prune_database call sites); an accepted token "
         "is character for character an issued one, for the same service and cookie; the negative result "
         "csrf_reuse_after_prune (tokens carry no timestamp, consumed tokens are forgotten at server start) "
-        "is proved and kept as an open finding. Tied to the code each run by: table vs app.url_map/wrapper "
+        "is proved and kept as an open finding. Credential lifecycle (DashLive.Life: clock, Token rows, accounts; "
+        "events login / refresh / API logout / HTML logout / account deletion / restart / clock jump): after a logout "
+        "no refresh token issued before it, and not the access token the API logout was called with, is ever accepted "
+        "again, for every continuation and every clock; credentials of a deleted account are void for ever; the two "
+        "negative results (other stateless access tokens <= 15 min, copies of the session cookie) are proved and kept "
+        "as open findings. Tied to the code each run by: table vs app.url_map/wrapper "
         "introspection, every row x role x flag vector as a real request (body entered / status vs model; "
         "SHA-256 of all tables and the blob listing before/after), and differential CSRF sequences."),
     "level_note": (
@@ -100,6 +107,12 @@ ASSUMPTIONS = [
     "models/token.py; JWT libraries keep the real clock (token lifetimes are not part of the CSRF protocol)",
     "csrf_service_bound / csrf_cookie_bound: default configuration STRICT_CSRF_ORIGIN off; the strict-origin "
     "form keeps the same-origin side condition explicit (csrf_bound_partial)",
+    "lifecycle theorems: a credential is its claims (signatures trusted); the refresh-token theorems assume the row "
+    "of a token names the token's owner (true by construction of login) and jti values are never re-issued; the "
+    "lifecycle oracle treats a logged-out or deleted identity as anonymous for refresh tokens, the presented access "
+    "token and everything of a deleted account; other access tokens within 15 min and copies of the session cookie "
+    "are the open findings D14g / D14f (replayed from the ledger each run); password change does not revoke "
+    "anything in the code and is not required to by the property",
     "the async view inspect-media POST cannot run in this sandbox (asgiref missing): its 'body entered' "
     "observation is skipped, its fingerprints are still compared",
 ]
@@ -888,6 +901,61 @@ def csrf_http_channel(ctx, w, table) -> Channel:
 
 
 # ---------------------------------------------------------------------------------------------
+# lifecycle: credentials after logout / deletion / expiry, for every clock
+
+def ops_json(ops):
+    return [list(o) for o in ops]
+
+
+def lifecycle_channel(ctx, w, table) -> Channel:
+    import c15_life
+    ch = Channel("lifecycle", rule=(
+        "scenarios login -> second access token -> clock jump J1 (0 / 16 min / 7 d / 30 d, across the access-token, "
+        "refresh-row and refresh-JWT lifetimes) -> invalidation (none, API logout, HTML logout, account deletion by an "
+        "admin, server restart, restart+logout, logout+restart) -> clock jump J2 -> every credential of the login "
+        "(both early access tokens, the one the logout was called with, the refresh token, the session cookie) is "
+        "presented from a cookie-less client to a state-changing request -> a new login; accounts media/user/admin; "
+        "the clock drives the application, models/token.py and the JWT libraries; accepted <=> the database "
+        "fingerprint changed; compared operation by operation with the Lean model DashLive.Life; oracle: a "
+        "credential of a logged-out or deleted identity changes nothing (refresh tokens, the presented access "
+        "token, everything of a deleted account); non-trivial = the scenario has an invalidation or a clock jump"))
+    scen = c15_life.grid(ctx.thorough)
+    lines = [c15_life.model_line(s["ops"]) for s in scen]
+    try:
+        model = common.run_driver(lines)
+    except Exception as e:
+        ch.errors.append(f"driver: {e}")
+        model = ["driver-error"] * len(lines)
+    for s, mo in zip(scen, model):
+        ch.evaluations += 1
+        try:
+            outs, fails, trace = c15_life.run(w, s["ops"])
+        except Exception as e:   # noqa: BLE001
+            ch.errors.append(f"{s['account']} {s['j1']} {s['inval']} {s['j2']}: {type(e).__name__}: {e}")
+            continue
+        key = {k: s[k] for k in ("account", "j1", "inval", "j2")}
+        ch.count(f"invalidation|{s['inval']}")
+        ch.count(f"clock|J1={s['j1']} s")
+        for o, r in zip(s["ops"], outs):
+            if o[0] in "arc":
+                ch.count(f"probe|{ {'a': 'access token', 'r': 'refresh token', 'c': 'session cookie'}[o[0]] }|{r}")
+        if s["inval"] != "none" or s["j1"] or s["j2"]:
+            ch.nontrivial.add(json.dumps(key, sort_keys=True))
+        for f in fails:
+            ch.oracle_failures.append({"channel": "lifecycle", "clause": f["clause"], "lifecycle": key,
+                                       "ops": ops_json(s["ops"]), "sequence": trace[:f["at"] + 1]})
+            break
+        if mo != "driver-error" and mo.split(";") != outs:
+            mo_l = mo.split(";")
+            first = next((i for i, (a, b) in enumerate(zip(mo_l, outs)) if a != b), min(len(mo_l), len(outs)))
+            ch.disagreements.append({"lifecycle": key, "ops": ops_json(s["ops"]), "first_difference_at": first,
+                                     "model": mo_l[first:first + 1], "impl": outs[first:first + 1],
+                                     "op": trace[first] if first < len(trace) else None})
+        ch.sample({"scenario": key, "ops": [c15_life.op_text(o) for o in s["ops"]], "results": outs}, limit=3)
+    return ch
+
+
+# ---------------------------------------------------------------------------------------------
 
 def xcheck_channel(w, table) -> Channel:
     import c15_routes
@@ -917,6 +985,7 @@ def channels(ctx):
     yield csrf_channel(ctx, w, table)
     w.restore()
     yield csrf_http_channel(ctx, w, table)
+    yield lifecycle_channel(ctx, w, table)
 
 
 # ---------------------------------------------------------------------------------------------
@@ -995,6 +1064,13 @@ def search(ctx, disagreements):
             return {"channel": "csrf_seq", "clause": fails[0]["clause"],
                     "sequence": seq_json(name, strict, ops, cookies, origins),
                     "trace": concrete[:fails[0]["at"] + 1][-6:]}
+    import c15_life
+    for sc in c15_life.grid(True):
+        outs, fails, trace = c15_life.run(w, sc["ops"])
+        if fails:
+            return {"channel": "lifecycle", "clause": fails[0]["clause"],
+                    "lifecycle": {k: sc[k] for k in ("account", "j1", "inval", "j2")},
+                    "ops": ops_json(sc["ops"]), "sequence": trace[:fails[0]["at"] + 1]}
     for i in range(3000):
         strict, ops, cookies, origins = gen_csrf_seq(rng, services, True)
         name = f"{ctx.seed}:search_salt:{i}"
@@ -1020,6 +1096,11 @@ def replay(ctx, payload):
         return {"fails": bool(fail), "clause": fail["clause"] if fail else None, "case": f["case"],
                 "documented": row["kind"], "status": obs["status"], "body_entered": obs["entered"],
                 "changed": obs["changed"], "changed_user_rows": obs["changed_users"], "request": obs["request"]}
+    if "ops" in f and "lifecycle" in f:
+        import c15_life
+        w = c15_world.world()
+        outs, fails, trace = c15_life.run(w, [tuple(o) for o in f["ops"]])
+        return {"fails": bool(fails), "failures": fails, "sequence": trace}
     if "http_replay" in f:
         w = c15_world.world()
         h = f["http_replay"]
@@ -1044,6 +1125,11 @@ def replay_finding(ctx, finding):
     import c15_world
     w = c15_world.world()
     wit = finding["witness"]
+    if "lifecycle_ops" in wit:
+        # D14f / D14g: the last operation is a probe of a credential of a logged-out identity
+        import c15_life
+        outs, _, _ = c15_life.run(w, [tuple(o) for o in wit["lifecycle_ops"]])
+        return outs[-1] == "accepted"
     table = _table()
     services = list(table["services"]) or ["streams"]
     ops = [tuple(o) for o in wit["ops"]]
